@@ -162,6 +162,9 @@ pub struct Swarm {
     /// children write in chunks of 1..=chunk_max bytes
     pub chunk_max: usize,
     pub chunk_gap_max_ns: u64,
+    /// exact tie between a deadline and an event: 0 = drawn, 1 = the deadline wins, 2 = the event wins
+    #[serde(default)]
+    pub tie: u8,
 }
 
 impl Default for Swarm {
@@ -174,6 +177,7 @@ impl Default for Swarm {
             spawn_latency_max_ns: 1_000_000,
             chunk_max: 65536,
             chunk_gap_max_ns: 1_000,
+            tie: 0,
         }
     }
 }
